@@ -145,3 +145,14 @@ Theorem C01_darrow_is_image :
     exists m, r = VSet m /\ ssorted m /\ forall y, In y m <-> exists x, In x l /\ clos_img fuel cenv p body x = Ok y.
 Proof. exact darrow_is_image. Qed.
 Print Assumptions C01_darrow_is_image.
+
+
+(* the set builder of rel/ (rel.NewSet, transcribed in Rep/Builder.v): a value is a member of the built set exactly when it
+   is the denotation of one of the members given - none dropped, none invented - for every member list in the well-formed
+   region and on which Equal is sound (see Properties/C02.v C02_builder_denotes_members for both hypotheses) *)
+From Arrai Require Import Rep.Builder Proofs.BuilderAllP Proofs.BuilderCorP.
+Theorem C01_set_builder_membership :
+  forall ms r, build ms = BOk r -> wf_members ms -> equal_sound_on ms ->
+    forall v, In v (set_elems (abs r)) <-> exists m, In m ms /\ v = abs m.
+Proof. exact set_builder_membership. Qed.
+Print Assumptions C01_set_builder_membership.
